@@ -10,6 +10,7 @@ import (
 	"github.com/internetarchive/Zeno/internal/pkg/controler/pause"
 	"github.com/internetarchive/Zeno/internal/pkg/log"
 	"github.com/internetarchive/Zeno/internal/pkg/stats"
+	"github.com/internetarchive/Zeno/internal/pkg/verifhook"
 	"github.com/internetarchive/Zeno/pkg/models"
 )
 
@@ -92,11 +93,14 @@ func (p *postprocessor) worker(workerID string) {
 			return
 		case <-controlChans.PauseCh:
 			logger.Debug("received pause event")
+			verifhook.At("pause.ack", "post."+workerID)
 			controlChans.ResumeCh <- struct{}{}
+			verifhook.At("pause.resumed", "post."+workerID)
 			logger.Debug("received resume event")
 		case seed, ok := <-p.inputCh:
 			if ok {
 				logger.Debug("received seed", "seed", seed.GetShortID())
+				verifhook.AtKV("post.recv", seed.GetID(), "post."+workerID, 0)
 
 				if err := seed.CheckConsistency(); err != nil {
 					panic(fmt.Sprintf("seed consistency check failed with err: %s, seed id %s", err.Error(), seed.GetShortID()))
@@ -118,6 +122,7 @@ func (p *postprocessor) worker(workerID string) {
 				}
 
 				closeBodies(seed)
+				verifhook.At("post.forward", seed.GetID())
 
 				select {
 				case <-p.ctx.Done():
